@@ -34,7 +34,7 @@ def one(name: str):
     try:
         if apply_patch(wt, patch).returncode != 0:
             return name, "patch-does-not-apply", [], 0.0
-        shutil.copytree(f"{VERIF}/lean", f"{wt}/_lean", ignore=shutil.ignore_patterns("Audit_*"))
+        shutil.copytree(os.environ.get("VERIF_LEAN_SRC", f"{VERIF}/lean"), f"{wt}/_lean", ignore=shutil.ignore_patterns("Audit_*"))
         env = dict(os.environ, VERIF_REPO=wt, VERIF_LEAN_DIR=f"{wt}/_lean", VERIF_WORK=f"{wt}/_work",
                    VERIF_EVIDENCE=f"{wt}/_evidence")
         r = subprocess.run(["./check", pid, "--tier", "quick"], cwd=VERIF, env=env, capture_output=True, text=True)
